@@ -50,6 +50,9 @@ type Op struct {
 	Static bool `json:"static,omitempty"`
 	// Hostile: raw request, JSON encoded protobuf
 	Raw string `json:"raw,omitempty"`
+	// Hostile: what the expectation in Term relies on ("app-live:id", "app-gone:id", "node-live:id", "node-gone:id",
+	// "key-outstanding:key", "no-app:id"); a reduced history in which this no longer holds is not a counterexample
+	Need []string `json:"need,omitempty"`
 	N   int    `json:"n,omitempty"`
 }
 
